@@ -281,6 +281,28 @@ reg("C20", "fault_enumeration",
     "exhaustive mutation enumeration (bit flips, truncations, header-octet substitutions) + Hypothesis TLV-tree generation + coverage-guided fuzzing (atheris) with resource and follow-up oracles",
     "DESIGN.md section 3, C20")
 
+# what rounds 4 and 5 of the seeding (DESIGN.md 8.6) added to the searches, appended to the texts above
+ADDED = {
+    "C01": " Agents may be volatile (counters, gauges and time ticks move with every read), so one instance read twice in a response carries two values.",
+    "C02": " Repetition counts reach 2^31-1 (the agent answers with at most 300 rows); agents may be volatile.",
+    "C03": " Returned OIDs are bound to INTEGER, either exception marker, OCTET STRING or NULL; one case in six runs through the pythonic wrapper.",
+    "C04": " Requests carry up to 300 OIDs and max-repetitions up to 1000.",
+    "C05": " Requests carry up to 2000 OIDs; walk roots use sub-identifiers of every encoded width.",
+    "C06": " Strings reach 100000 octets and OIDs 128 sub-identifiers.",
+    "C07": " Near-miss communities (one extra / changed octet, also >= 0x80), agent restarts (re-discovery and retry) under the stepping clock, clocks starting at 0.",
+    "C09": " Walks also run in lenient mode; forgeries are also signed with the key of a second legitimate user the process talked as before and carry the attacker's bindings under every PDU class; an answer replaced by an unauthenticated Report must end in an exception.",
+    "C11": " Salts of any shape (16-octet counter with leading zeros, zero octets, empty, 40 octets) on both sides; a plug-in that is installed while the process is running.",
+    "C12": " usmStats counters start anywhere in Counter32, agent engine ids have 5..32 octets, requests may run inside a reconfigure block, and timeliness is judged on the wire: an untimely message is a violation unless the engine restarted since the client last learned its boots / time.",
+    "C13": " Both tiers also vary the environment of the call: IPv4 / IPv6 endpoint, DEBUG logging on / off, replies of 1..65507 octets.",
+    "C14": " The driver can also restart the engine and let the agent answer early but deliver late; a second client may talk to a second engine behind the same address; a write-then-read-back operation races with a read of the same object.",
+    "C15": " Cells may hold falsy values (0, empty string, 0.0.0.0, zero ticks, the zero-length OBJECT IDENTIFIER).",
+    "C17": " IpAddress additionally covers all 24^4 addresses whose octets are characters of [0-9a-fA-F.:].",
+    "C18": " Unknown settings also come together with valid ones (after the refusal the next request must speak as before), and a configuration level that already talked to the engine must not discover it again after an inner block.",
+    "C19": " Listener communities with blanks, upper case, 255 octets; a datagram whose outermost TLV is not a SEQUENCE or announces more octets than arrived must not be delivered.",
+    "C20": " Structured families on top: an overlap chain (children ending beyond their parent) in place of every message field and as binding value, incl. walks and the pythonic wrapper; proper nesting to depth 1500 with DEBUG logging on / off; Response / Report integer fields of any width; peers that answer every request of one call the same way (the call must end within 40 datagrams); histories of 150..1800 refused datagrams on one client / trap listener (what stays allocated must not grow with their number). A second x690 defect (children that end beyond their parent make every conversion exponential) is excluded by its trigger predicate, counted, and re-demonstrated from known/C20-x690-overlap.json.",
+}
+ALL_CASES = " Every case of every check runs either with logging disabled or as for a user with DEBUG logging on (a fixed function of the case, one in four; DESIGN.md 8.10)."
+
 
 def main():
     present = sorted(os.path.basename(p)[:3].upper()
@@ -292,6 +314,7 @@ def main():
         if pid not in CHECKS or pid not in present:
             continue
         cat, text, note, tech, ref = CHECKS[pid]
+        text = text + ADDED.get(pid, "") + ALL_CASES
         checks.append(dict(
             property_id=pid,
             quick_cmd="./check %s --quick" % pid,
